@@ -266,8 +266,8 @@ impl Prop for C13 {
     }
     fn runs(&self, tier: Tier) -> u64 {
         match tier {
-            Tier::Quick => 12_000,
-            Tier::Thorough => 400_000,
+            Tier::Quick => 200_000,
+            Tier::Thorough => 4_000_000,
             Tier::Tiny => 50,
         }
     }
